@@ -198,7 +198,7 @@ def replay_derive(ctx, sc, k):
     o2 = derive(e2, p2, equal_inputs)       # the second derivation from the same inputs is always a fresh call
     for o in (o1, o2):
         if o[0] == 'raise':
-            ctx.mismatch('C08:derive:%s:valid-mnemonic-raises' % cname,
+            ctx.mismatch('C08:derive:%s:valid-mnemonic-raises-%s' % (cname, o[1]),
                          'the model derives a key of every curve from an accepted mnemonic; Key.from_mnemonic raised %s: %s\n%s' % (o[1], o[2], desc), case)
             return False, False
     k1, k2 = o1[1], o2[1]
@@ -258,7 +258,7 @@ def run(ctx):
     by = {}
     for v in outs:
         by.setdefault(v[1], []).append(v)
-    if (len(by.get('export', [])), len(by.get('mnemonic', [])), len(by.get('derive', []))) != (31, 54, 1440):
+    if (len(by.get('export', [])), len(by.get('mnemonic', [])), len(by.get('derive', []))) != (31, 64, 1440):
         raise MachineryError('unexpected scenario table: %s' % {k: len(v) for k, v in by.items()})
     for sc in by['export']:
         for k in n_cases(ctx, 'export', sc[2]):
@@ -305,7 +305,7 @@ META = {
              'of (mnemonic, email ++ passphrase), and prints the complete scenario table; every scenario is replayed on seeded real secrets, passphrases and mnemonics with '
              'public keys, key hashes and BIP-39 checksums recomputed independently.'),
     'design_ref': 'DESIGN.md section 5 C08, section 3.4, section 9',
-    'note': ('The specification\'s contribution is thin: it is the scenario table (31 export/import rows, 54 mnemonic rows, 1440 derivation rows) and the accept / reject logic; every '
+    'note': ('The specification\'s contribution is thin: it is the scenario table (31 export/import rows, 64 mnemonic rows, 1440 derivation rows) and the accept / reject logic; every '
              'cryptographic equality (public key, Blake2b-160 key hash, Base58 form, BIP-39 checksum) is established during replay by a second implementation (harness/vf/cryptoref.py), '
              'not by TLC. Trusted: cryptoref.py, b58.py, `cryptography`/OpenSSL, the Tezos prefix bytes transcribed in cryptoref.SK_KINDS. BLS public keys use py_ecc arithmetic (not independent); '
              'encrypted exports are only round-tripped.'),
